@@ -39,6 +39,9 @@ type dag struct {
 	loads  []cid.Cid // every StorageReadOpener call, in order
 }
 
+// dagForce: features the next buildDag must include (set by the families for their first, fixed cases)
+var dagForce struct{ big, twins bool }
+
 func (g *Gen) buildDag(depth int) *dag {
 	d := &dag{store: &memstore.Store{}}
 	d.ls = cidlink.DefaultLinkSystem()
@@ -54,7 +57,7 @@ func (g *Gen) buildDag(depth int) *dag {
 	var level []datamodel.Link
 	for i := 0; i < 2+g.pick(3); i++ {
 		sz := 1 + g.pick(40)
-		if g.pick(8) == 0 {
+		if g.pick(8) == 0 || (dagForce.big && i == 0) {
 			// leaves whose section length crosses the 2-byte / 3-byte varint boundary and beyond
 			sz = []int{16340 + g.pick(20), 16384, 20000 + g.pick(1000), 33000}[g.pick(4)]
 		}
@@ -65,7 +68,9 @@ func (g *Gen) buildDag(depth int) *dag {
 		level = append(level, l)
 		d.all = append(d.all, l.(cidlink.Link).Cid)
 	}
-	if g.pick(3) == 0 {
+	var twinLinks []datamodel.Link
+	forceTwins := dagForce.twins
+	if g.pick(3) == 0 || dagForce.twins {
 		// multihash twins: the same bytes (a CBOR text string) linked once as raw and once as dag-cbor —
 		// two different CIDs, two blocks to write, one multihash
 		txt := fmt.Sprintf("twin-%d-%x", g.pick(1000), g.bytes(1+g.pick(20)))
@@ -75,6 +80,7 @@ func (g *Gen) buildDag(depth int) *dag {
 			l1, e1 := d.ls.Store(linking.LinkContext{}, rawLP, basicnode.NewBytes(buf.Bytes()))
 			l2, e2 := d.ls.Store(linking.LinkContext{}, cborLP, n)
 			if e1 == nil && e2 == nil {
+				twinLinks = []datamodel.Link{l1, l2}
 				level = append(level, l1, l2)
 				d.all = append(d.all, l1.(cidlink.Link).Cid, l2.(cidlink.Link).Cid)
 			}
@@ -97,6 +103,9 @@ func (g *Gen) buildDag(depth int) *dag {
 				} else {
 					kids = append(kids, level[g.pick(len(level))]) // repeats and sharing on purpose
 				}
+			}
+			if forceTwins && lv == depth-1 {
+				kids = append(kids, twinLinks...) // the root itself links to both twins
 			}
 			n, err := qp.BuildMap(basicnode.Prototype.Any, -1, func(ma datamodel.MapAssembler) {
 				qp.MapEntry(ma, "a", qp.Link(kids[0]))
@@ -218,10 +227,20 @@ func (g *Gen) selectorFor(kind int) (datamodel.Node, string) {
 func famC15(g *Gen, o *Out, n int, thorough bool) {
 	ctx := context.Background()
 	for c := 0; c < n; c++ {
+		// the first six cases are fixed: a leaf past the 2-byte length prefix, multihash twins, both — each
+		// under the explore-all selector, with and without link-visit-once
+		fixed := c < 6
+		dagForce.big, dagForce.twins = fixed && c%3 != 1, fixed && c%3 != 0
 		d := g.buildDag(1 + g.pick(3))
+		dagForce.big, dagForce.twins = false, false
 		sel, selName := g.selectorFor(g.pick(3))
 		dup := g.pick(3) == 0
-		if g.pick(4) == 0 {
+		skew := g.pick(4) == 0
+		if fixed {
+			sel, selName = g.selectorFor(0)
+			dup, skew = c >= 3, false
+		}
+		if skew {
 			var chain int
 			d, chain = g.buildSkewDag()
 			dep := int64(chain + 1 + g.pick(3))
